@@ -97,8 +97,8 @@ def choose(rng, st):
             return op, [rng.sample(names, k), False]
         if op == "OmitGapPos":
             den = rng.choice([1, 2, 3, 4, 6])
-            thr = rng.choice([(999999, 1000000), (rng.randint(0, den), den)])
-            return op, [thr[0], thr[1], rng.choice([1, 1, 2, 3])]
+            thr = rng.choice([(999999, 1000000, "exact"), (rng.randint(0, den), den, "exact"), (rng.randint(1, den), den, rng.choice(["below", "below", "above"]))])
+            return op, [thr[0], thr[1], thr[2], rng.choice([1, 1, 2, 3])]
         if op == "NoDegenerates":
             return op, [rng.choice([1, 1, 2, 3]), rng.random() < 0.5]
         if op == "Filtered":
